@@ -100,6 +100,10 @@ def sensitive_nodes(repo, c, f, g, models):
             if isinstance(a, ast.AugAssign):
                 out.append((n, "in-place merge"))
                 continue
+            if isinstance(a, ast.Return):
+                # a normal return is an acceptance: `if other.entries == 0: return self` in front of the guards accepts an empty
+                # operand of any type and layout
+                out.append((n, "normal return (the operand is accepted)"))
         for e in header_exprs(n):
             if e is None:
                 continue
@@ -210,15 +214,29 @@ def run(repo, rep, tier):
             # ---------------- R10.2
             dict_fields = [s for s, k in m.slot_kind.items() if k == "dict"]
             ft = FieldTaint(repo, c, f, [sn, on], dict_fields)
+            ft.sets_lose_order = True
+            ft._fix()
             cmps = raising_comparisons(f, g, ft)
 
+            dom = g.dominators()
+            returns = [n for n in g.nodes if n.kind == "stmt" and isinstance(n.ast, ast.Return) and n.id in dom]
+            escaped = {}
+
             def compared(field, flavours):
+                tests = []
                 for (tn, la, lb, e) in cmps:
                     for (x, y) in ((la, lb), (lb, la)):
                         if any(p == sn and fl == field and fv in flavours for (p, fl, fv, z) in x) and any(
                                 p == on and fl == field and fv in flavours for (p, fl, fv, z) in y):
-                            return True
-                return False
+                            tests.append(tn)
+                if not tests:
+                    return False
+                # the comparison guards the merge only if no normal return is reachable around it
+                free = [r0 for r0 in returns if not any(tn.id in dom[r0.id] for tn in tests)]
+                if free:
+                    escaped[field] = free[0]
+                    return False
+                return True
 
             needs = []
             for fld in m.structural:
@@ -245,6 +263,11 @@ def run(repo, rep, tier):
                     # comparing the template's type name is the same declaration
                     ok = compared(m.template, ("full",))
                 r2.ob(ok, f"{f.qualname}: {what} `{fld}` compared with a raising mismatch edge")
+                if not ok and fld in escaped:
+                    r0 = escaped[fld]
+                    rep.finding("R10.2", f, r0.stmt, f"`{norm(r0.stmt)}` (line {r0.lineno}) returns normally without passing the comparison of {what} "
+                                f"(`{fld}`): on that path an operand with another layout is accepted silently", stmt=f"return around the guard on {fld}")
+                    continue
                 if not ok:
                     rep.finding(
                         "R10.2", f, f.node,
